@@ -87,7 +87,9 @@ impl Scanner {
     }
 
     fn add_line(&mut self, line_start: usize) {
-        self.lines.push(line_start);
+        if self.lines.last().map_or(true, |&last| last < line_start) {
+            self.lines.push(line_start);
+        }
     }
 
     fn error<S: AsRef<str>>(&self, reason: S) -> anyhow::Error {
